@@ -37,6 +37,27 @@ theorem session_cookie_never_forwarded (ops : JarOps J U SC C) (cfg : Cfg) (c : 
       obtain ⟨_, _, he⟩ := h
       cases he
 
+/-- What the websocket shim copies into `resource.headers` of the messages of a data request (header injection
+    enabled): the cookies of that request as its handler sees them - after the session handler when the data
+    handler is wrapped by it, the client's raw cookies otherwise. -/
+def injectedCookies (ops : JarOps J U SC C) (cfg : Cfg) (c : Cache J) (url : U) (cookies : List (Bytes × Bytes))
+    (wrapped : Bool) : List (BackendCookie C) :=
+  if wrapped then (request ops cfg c url cookies).2.2 else cookies.map (fun k => BackendCookie.client k.1 k.2)
+
+/-- The session cookie does not reach the backend inside injected message headers either: data requests pass the
+    session handler (regenerated fact about createShimChannel), which replaces it by the session's cookies. -/
+theorem session_cookie_never_injected (ops : JarOps J U SC C) (cfg : Cfg) (c : Cache J) (url : U)
+    (cookies : List (Bytes × Bytes)) (v : Bytes) :
+    (BackendCookie.client cfg.cookieName v : BackendCookie C) ∉ injectedCookies ops cfg c url cookies websockets_dataRequestsPassSessionHandler := by
+  have hw : websockets_dataRequestsPassSessionHandler = true := by decide
+  simp only [injectedCookies, hw, if_true]
+  exact session_cookie_never_forwarded ops cfg c url cookies v
+
+/-- without the wrapper the session cookie is copied into the messages (defect D25, repaired) -/
+theorem unwrapped_data_handler_leaks (ops : JarOps J U SC C) (cfg : Cfg) (c : Cache J) (url : U) (v : Bytes) :
+    (BackendCookie.client cfg.cookieName v : BackendCookie C) ∈ injectedCookies ops cfg c url [(cfg.cookieName, v)] false := by
+  simp [injectedCookies]
+
 /-- The only cookie a client can receive is the agent's own session cookie, and it is
     issued exactly to clients that presented none. -/
 theorem only_session_cookie (ops : JarOps J U SC C) (c : Cache J) (s fresh : Sid) (url : U) (sc : List SC) :
